@@ -193,9 +193,20 @@ def run(ctx):
         if f is None:
             r.anchor_missing("VariantAccess::" + m)
             continue
+        # callees of the method and of the local helpers it goes through (`self.content()`, `deserialize_value`)
         names = set()
-        for bi, t in f.calls():
-            names |= F.callee_names(t)
+        seen, work = set(), [f]
+        while work:
+            g = work.pop()
+            if g.path in seen or len(seen) > 12:
+                continue
+            seen.add(g.path)
+            for bi, t in g.calls():
+                names |= F.callee_names(t)
+                c = t["callee"]
+                h = serde.fn(c.get("resolved") or c.get("path") or "") if c.get("resolved_crate", c.get("crate")) == serde.name else None
+                if h is not None and h.file.endswith("value/de.rs") and not h.impl_trait:
+                    work.append(h)
         uses_cdr = any(x.endswith("Cons::cdr") for x in names)
         routed = want == "cdr" or any(x.endswith("::" + want) for x in names)
         if uses_cdr and routed:
